@@ -16,9 +16,9 @@ import vtlib
 from checks import synccheck, tracecheck
 
 META = dict(
-    text='TLC exhausts protocol models of the three ring queues of common/lockfree_queue.h at atomic-operation granularity (RingQueues.tla: one action per atomic load, compare-exchange, fetch_add, store and per slot read / write; index words and mark words wrap and runs start right below the wrap; MPMC: tail, head, per-slot mark with the turn encoding, push / pop with the full / empty re-test, send / recv by fetch_add and spin on the mark; batch MPMC: tail, write_head, read_tail, head, claim by CAS, element-wise copy, ordered publication; SPSC single and batch calls) for 2 producers x 2 consumers x 2 values with capacity 2, 1 x 1 with 4-5 values across the index wrap, and capacity 4, and checks ExactlyOnce (a value whose push / send reported success is returned by exactly one pop / recv or is still stored at the end; nothing else is returned), FifoLinearizable (the consumer holding the k-th head ticket returns the k-th accepted value; a failed or partial call saw a full / empty queue at one instant), PerProducerOrder, CapacityBound, NoTornSlot (no slot read between claim and publication or twice, none overwritten before it was read) and termination under fairness. RingChannel.tla models send (push with the send_waiters / send_sem backoff, idler load, capped compare-exchange loop on pending, signal) and recv (pop, idler++, re-check pop, timed queue_sem wait, pending--, notify_senders with the symmetric capped loop) of RingChannel / FlexRingChannel over a claim-then-publish ring for 2 x 2 x 2 calls, capacity 2, with and without time-outs, photon and OS-thread producers, and checks NotStuckNonEmpty (no state with an element ready, a consumer asleep in the timed wait, every other consumer outside recv, no token, no producer between its push and the end of send), the symmetric NotStuckNonFull, PendingMirrorsCount, counter sanity, the delivery ledger and deadlock freedom without time-outs. Broken variants (mark published before the slot is written; unordered batch publication; SPSC tail stored before the copy; idler / send_waiters registered after the re-check) must be caught. Recorded executions of the real templates (LockfreeMPMCRingQueue, LockfreeBatchMPMCRingQueue, LockfreeSPSCRingQueue, the three Flex variants, RingChannel over each, FlexRingChannel over MPMC and batch; capacity 2, 4, 8; 1-3 producers and 1-3 consumers, at most 4 client threads, plain OS threads or photon threads on 1-3 vCPUs; push / pop / push_batch / pop_batch / blocking send / recv; every value unique and stored with its complement; index words preset right below 2^64) are judged by TLC against the abstract bounded FIFO: every call takes effect at one instant between invocation and response, pops return exactly the head elements, a pop returns fewer than asked only if that was all there was, a push is refused only on a full queue (batch queue: counting slots claimed by calls in flight), at most capacity elements are held, after the final drain (ordinary pops) nothing is left, and whenever the harness finds every thread that is inside a channel call asleep at two inspections 10 ms apart, receivers sleep only on an empty and senders only on a full queue.',
-    note='Sequential consistency is assumed in both models: the memory orders and the seq_cst fences of send() / notify_senders() are outside the specification, and weakening them is not detected (DESIGN.md section 4). TLC results hold for the stated populations. Conformance samples schedules (no hooks inside lockfree_queue.h: interleavings inside one call are those the OS / photon scheduler produces, widened only by random pauses between calls). "Asleep" is the photon thread state SLEEPING at two inspections 10 ms apart, well below the 100 ms periodic re-check of the channel; OS-thread producers are never reported asleep. When push() may fail next to fetch_add recv() callers is not demanded (C07 does not state it; see the report: the MPMC full test compares indices modulo the capacity). MPMC queues with capacity >= 4 stop working when the 64-bit index wraps (mark word and index word wrap at different turns); this needs 2^64 operations and is only shown by the optional --wrap4 scenario (VERIF_C07_WRAP4=1).',
-    technique='TLA+ protocol models at atomic-operation granularity checked exhaustively by TLC (with liveness on the small configurations and broken variants as witnesses); TLC trace validation (linearizability against an abstract bounded FIFO, Settle / Quiesce observations) of executions recorded from the real templates',
+    text='TLC exhausts protocol models of the three ring queues of common/lockfree_queue.h at atomic-operation granularity (RingQueues.tla: one action per atomic load, compare-exchange, fetch_add, store and per slot read / write; index words and mark words wrap and runs start right below the wrap; MPMC: tail, head, per-slot mark with the turn encoding, push / pop with the full / empty re-test, send / recv by fetch_add and spin on the mark; batch MPMC: tail, write_head, read_tail, head, claim by CAS, element-wise copy, ordered publication; SPSC single and batch calls) for 2 producers x 2 consumers x 2 values with capacity 2 (push/pop, send/recv, mixed), 1 x 1, 2 x 1 and 1 x 2 with 3-5 values across the index wrap (with termination under fairness), and capacity 4, and checks ExactlyOnce (a value whose push / send reported success is returned by exactly one pop / recv or is still stored at the end; nothing else is returned), FifoLinearizable (the consumer holding the k-th head ticket returns the k-th accepted value; a refused or partial call saw a full / empty queue at one instant of the call), PerProducerOrder, CapacityBound and NoTornSlot (no slot read between claim and publication or twice, none overwritten before it was read). RingChannel.tla models send (push with the send_waiters / send_sem backoff, idler load, capped compare-exchange loop on pending, signal) and recv (pop, idler++, re-check pop, timed queue_sem wait, pending--, notify_senders with the symmetric capped loop) of RingChannel / FlexRingChannel over a claim-then-publish ring, one action per atomic access, for populations up to 2 producers x 2 consumers with 2+1 calls per side (and 2 x 1 / 1 x 2 with 3), capacity 2, with and without time-outs, photon and OS-thread producers, and checks NotStuckNonEmpty (no state with an element ready, a consumer asleep in the timed wait, every other consumer outside recv, no token, no producer between its push and the end of send), the symmetric NotStuckNonFull, PendingMirrorsCount, counter sanity, the delivery ledger and deadlock freedom without time-outs. Broken variants (mark published before the slot is written; unordered batch publication; SPSC tail stored before the copy; idler / send_waiters registered after the re-check) must be caught. Recorded executions of the real templates (LockfreeMPMCRingQueue, LockfreeBatchMPMCRingQueue, LockfreeSPSCRingQueue, the three Flex variants, RingChannel over each, FlexRingChannel over MPMC and batch; capacity 2, 4, 8; 1-3 producers and 1-3 consumers, at most 4 client threads, plain OS threads or photon threads on 1-3 vCPUs; push / pop / push_batch / pop_batch / blocking send / recv; every value unique and stored with its complement; index words preset right below 2^64; the unchanged header compiled with schedule points in front of every atomic operation that names its memory order, at the slot copies, and with seeded bounded delays there; directed scenarios that hold a consumer right before idler.fetch_add while a producer completes send, and a producer right before send_waiters.fetch_add while a consumer completes recv) are judged by TLC against the abstract bounded FIFO: every call takes effect at one instant between invocation and response, pops return exactly the head elements (so only values pushed with success, each once, in per-producer order), a pop returns fewer than asked only if that was all there was, a push is refused or cut short only if the queue was that full at an instant of the call (counted as the queue itself counts), at most capacity elements are held, after the final drain (ordinary pops) nothing is left, and whenever the harness finds every thread that is inside a channel call asleep at two inspections 10 ms apart, receivers sleep only on an empty and senders only on a full queue.',
+    note='Sequential consistency is assumed in both models: the memory orders and the seq_cst fences of send() / notify_senders() are outside the specification, and weakening them is not detected (DESIGN.md section 4). TLC results hold for the stated populations; the full 2 x 2 x 2 channel population (31.5 million states with and without time-outs, passes) is run only with VERIF_C07_BIG=1. Conformance samples schedules: there are no trace points inside lockfree_queue.h, so interleavings inside a call are those the OS produces, widened by bounded random delays at the macro-injected schedule points; the two index CAS of the MPMC queue (default memory order) have none. "Asleep" is the photon thread state SLEEPING at two inspections 10 ms apart, well below the 100 ms periodic re-check of the channel; OS-thread producers are never reported asleep. Two behaviours of the code as it is lie outside what C07 states and are only recorded (evidence key as_is_behaviours_outside_C07, thorough tier): (a) MPMC push() returns false on a queue that holds nothing unread when `capacity` fetch_add recv() callers are ahead of tail and the slot at tail is still being read, because check_full compares the indices modulo the capacity (reproduced on the real code by h_ring --prim prfull; histories that mix push() with recv() are judged without a rule for refused pushes); (b) an MPMC queue with capacity >= 4 stops working when the 64-bit index wraps (the mark word and the index word wrap at different turns), which needs 2^64 operations (h_ring --prim wrap --wrap4, VERIF_C07_WRAP4=1). send<PhotonPause> / recv<PhotonPause> of the raw MPMC queue yield while holding a claimed ticket, so a non-yielding push() / pop() of another photon thread on the same vCPU can spin forever; the harness drives mixed styles with OS threads only.',
+    technique='TLA+ protocol models at atomic-operation granularity checked exhaustively by TLC (with liveness on the small configurations and broken variants as witnesses); TLC trace validation (linearizability against an abstract bounded FIFO, Settle / Quiesce observations) of executions recorded from the real templates with macro-injected schedule points and gated directed scenarios',
     design='3/C07')
 
 Q = 'MC_RingQueues'
